@@ -24,7 +24,10 @@ var legScopes = map[string][]string{
 	"C07": {"ids-distinct", "listing-", "get-returns-asked-message", "no-nil-nil", "listed-message-was-delivered", "delivered-stays", "deleted-means-gone",
 		"no-crash", "no-deadlock", "store-construction", "op-error"},
 	"C08": {"cap-bound", "size-bound", "delivered-stays", "no-crash", "no-deadlock", "store-construction", "op-error"},
-	"C12": {"delivered-stays", "op-error", "retention-scan-never-errors", "visit-never-errors", "visit-sees-stable-mailbox", "no-crash", "no-deadlock", "store-construction"},
+	"C10": {"delivered-stays", "listed-message-was-delivered", "deleted-means-gone", "ids-distinct", "listing-", "get-returns-asked-message", "read-back-intact",
+		"no-crash", "no-deadlock", "store-construction", "op-error"},
+	"C12": {"delivered-stays", "op-error", "retention-scan-never-errors", "visit-never-errors", "visit-sees-stable-mailbox", "no-crash", "no-deadlock", "store-construction",
+		"service-failure-shuts-the-program-down", "shutdown-completes", "clean-shutdown-exits-zero"},
 	"C14": {"sys-rest-", "rest-", "go-client-", "missing-is-404", "listed-is-fetchable", "removed-is-gone", "failed-request-changes-nothing", "request-changes-only-what-it-says",
 		"held-message-is-found", "api-is-served-under-the-base-path", "webui-", "nothing-is-served-outside-the-base-path", "root-redirects-to-the-base-path",
 		"expvar-is-served-under-the-base-path", "asm-final-mailbox-over-rest", "mail-is-fetchable-by-address", "mailbox-name-is-a-fixed-point"},
@@ -74,8 +77,12 @@ func init() {
 	attach("C08", func(c *core.Ctx) {
 		c09Legs(c, map[string]bool{"mem-cap": true, "mem-limit": true, "mem-cap-limit": true, "stress-mem": true})
 	})
+	// what is on disk stays what was acknowledged also when the clients of the file store overlap (readers that mark, deliveries, removals)
+	attach("C10", func(c *core.Ctx) { c09Legs(c, map[string]bool{"file-plain": true, "file-cap": true, "stress-file": true}) })
 	// the scanner against live traffic on the real stores: mailboxes come and go, old mail expires while fresh mail arrives in the same mailbox
 	attach("C12", func(c *core.Ctx) { c09Legs(c, map[string]bool{"visit-file": true, "visit-mem": true}) })
+	// the scanner inside the real program: whichever way shutdown comes (a signal, a service that could not start) its loop ends and Join returns
+	attach("C12", func(c *core.Ctx) { asmBinLegN(c, 4, 40) })
 	attach("C14", func(c *core.Ctx) { sysLegN(c, 600, 8000); asmLegN(c, 16, 200) })
 	attach("C05", func(c *core.Ctx) { asmLegN(c, 16, 200) })
 	// the hub as the program wires it: registered on a real extension.Host, fed by real stores under concurrent deliveries / removals / purges
